@@ -363,6 +363,38 @@ def run_collections(r, tier, seed, work, stats):
                 r.fail_case(mc, mv)
             else:
                 stats["unreported_violations"] += 1
+    # the collection programs that agree with the model at top level, again AS MODULE FILES (how `steel file.scm`
+    # runs them: car / cdr / cons / list / vector-ref / null? ... become op codes with their own type checks,
+    # and natively compiled under the JIT)
+    okc = [{k: v for k, v in c.items() if k not in ("meta", "_passed")} for c in cases
+           if c.get("_passed") and c["steps"][0]["class"] == "ok"]
+    mroot = os.path.join(work, "modules")
+    import shutil
+    shutil.rmtree(mroot, ignore_errors=True)
+    stats["coll_module_cases"] = 0
+    for ename, env in (("jit", None), ("nojit", {"STEEL_JIT": "false"})):
+        cs, vs = vlib.replay_as_modules([dict(c, id=c["id"] + "/" + ename) for c in okc], work, mroot, env_extra=env,
+                                        name="coll.mod." + ename)
+        stats["coll_module_cases"] += len(cs)
+        byid = {c["id"]: c for c in cases}
+        for mc_, v in zip(cs, vs):
+            orig = byid[mc_["id"].split("/")[0]]
+            bad = None if v["pass"] else coll_failure(orig, v)
+            account(r, mc_, bad is None, True)
+            if bad is None:
+                continue
+            # judged exactly like the top-level run (same observation tags), so that a known finding whose
+            # symptom varies from run to run (hashing of a hash map used as a key) is recognised here too
+            tag, why = bad
+            jc = {"id": mc_["id"], "fresh": False, "tag": tag + "|module", "steps": orig["steps"], "env": env,
+                  "module_file": mc_.get("module_file"), "module_src": mc_.get("module_src")}
+            jv = {"pass": False, "why": why}
+            f = vlib.match_finding(PROP, jc, jv, r.findings)
+            if f:
+                r.known.setdefault(f["key"], f["what"])
+                stats["by_finding"][f["key"]] = stats["by_finding"].get(f["key"], 0) + 1
+            else:
+                r.fail_case(jc, jv)
     return cases
 
 
